@@ -37,6 +37,7 @@ def dispatch (l : Line) : List Verdict :=
   | "idtok" => handleIdTok l
   | "login13" => handleLogin13 l
   | "fresh13" => handleFresh13 l
+  | "burst13" => handleBurst13 l
   | "setcookie" => handleSetCookie l
   | "jar" => handleJar l
   | "cookieval14" => handleCookieVal14 l
